@@ -39,7 +39,7 @@ fn main() {
                     ("callgraph", &["C03"], callgraph::run),
                     ("builder", &["C19"], builder::run),
                     ("schema", &["C16", "C17"], schema::run),
-                    ("inventory", &["C01", "C02", "C05", "C07", "C08", "C10", "C12", "C13", "C14", "C15"], inventory::run),
+                    ("inventory", &["C01", "C02", "C04", "C05", "C07", "C08", "C10", "C11", "C12", "C13", "C14", "C15", "C18"], inventory::run),
                 ];
                 for (name, props, f) in parts {
                     let file = out.join(format!("obl_translator_{name}.json"));
